@@ -206,3 +206,58 @@ def absorbAll (m : Method) (acc : List Ev × List Char) (toks : List RTok) : Lis
   toks.foldl (absorb m) acc
 
 end Genshi.Subst
+
+/-! ### what re-reading a stream must give, and the streams the theorems speak about -/
+namespace Genshi.Subst
+open Genshi.Escape Genshi.Str
+
+/-- the character data a TEXT event stands for: a plain string is itself, a `Markup`
+    instance holds text that is already escaped -/
+def textValue (s : List Char) (safe : Bool) : List Char := if safe then unescape s else s
+
+def flushData (pend : List Char) : List Ev := if pend.isEmpty then [] else [.text pend false]
+
+/-- what a reader makes of an event stream: adjacent character data is one text, empty
+    text vanishes, START and END stay as they are -/
+def coalesceGo : List Char → List Ev → List Ev
+  | pend, [] => flushData pend
+  | pend, .text s f :: rest => coalesceGo (pend ++ textValue s f) rest
+  | pend, .start t a :: rest => flushData pend ++ .start t a :: coalesceGo [] rest
+  | pend, .end_ t :: rest => flushData pend ++ .end_ t :: coalesceGo [] rest
+
+def coalesce (evs : List Ev) : List Ev := coalesceGo [] evs
+
+def isNameB (t : Name) : Bool := !t.isEmpty && t.all isNameChar
+
+/-- attribute names the serializer writes as `name="value"` (not minimised, renamed or dropped) -/
+def plainAttrName (m : Method) (n : Name) : Bool :=
+  match m with
+  | .xml => true
+  | .xhtml => !(booleanAttrs .xhtml).contains n && n != xmlLang && n != xmlSpace
+  | .html => !(booleanAttrs .html).contains n && !n.contains ':' && n != xmlnsName
+
+def attrsOkB (m : Method) (a : List (Name × List Char)) : Bool :=
+  a.all fun p => isNameB p.1 && plainAttrName m p.1
+
+/-- names are names, no raw-text element -/
+def evOkB (m : Method) : Ev → Bool
+  | .start t a => isNameB t && attrsOkB m a && !(noescapeElems m).contains t
+  | .end_ t => isNameB t
+  | .text _ _ => true
+
+/-- may `t` be written as a start tag with content?  (under html a void element may not) -/
+def openOk (m : Method) (t : Name) : Bool := !(m = .html && (voidElems .html).contains t)
+
+/-- every START is followed by something, an END directly after a START is its own, and
+    (html) a void element is empty: what `EmptyTagFilter` and the html reader rely on -/
+def emptyOkGo (m : Method) : Option Name → List Ev → Bool
+  | none, [] => true
+  | some _, [] => false
+  | some t, .end_ t' :: rest => t == t' && emptyOkGo m none rest
+  | some t, .start t' _ :: rest => openOk m t && emptyOkGo m (some t') rest
+  | some t, .text _ _ :: rest => openOk m t && emptyOkGo m none rest
+  | none, .start t _ :: rest => emptyOkGo m (some t) rest
+  | none, .end_ _ :: rest => emptyOkGo m none rest
+  | none, .text _ _ :: rest => emptyOkGo m none rest
+
+end Genshi.Subst
